@@ -239,12 +239,15 @@ def run(ctx):
     # (A) regenerate
     try:
         from tools.gen import lib as gen_mod
+        from tools.gen import libsrc as src_mod
     except ImportError:
-        gen_mod = None
+        gen_mod = src_mod = None
     try:
         ctx.build.boot()
         if gen_mod is not None:
             ctx.gen("Lib.lean", gen_mod.render(ctx.build.tree))
+            # normalised source text of every mirrored C function / boot.janet definition (compared in Lib/SrcTie.lean)
+            ctx.gen("LibSrc.lean", src_mod.render(ctx.build.tree))
     except BuildError as e:
         ctx.violation("build-failed", {"kind": "build", "error": str(e)}, found=False, what="tree does not build")
         return ctx.finish("proof", {"evaluations": 0, "distinct_nontrivial": 0})
@@ -256,6 +259,14 @@ def run(ctx):
     # (B,C)
     if THEOREMS:
         broken += ctx.obligations("JanetModel.Props.C17", THEOREMS)
+        if src_mod is not None:
+            # one theorem per mirrored function: current source text = the text the mirror was transcribed from
+            tb = ctx.obligations("JanetModel.Lib.SrcTie", src_mod.tie_theorems())
+            if tb:
+                changed = changed_sources(ctx, src_mod)
+                msg = "source text of mirrored function(s) changed since the mirror was transcribed: " + ", ".join(changed or ["?"])
+                broken.append(msg)
+                ctx.broken.append(msg)
         if not quick:
             ok, log = ctx.leanchecker("JanetModel.Props.C17")
             if not ok:
@@ -386,6 +397,10 @@ def _run(ctx, quick, broken, exe, janet, workdir):
         "model_diffs": len(model_fail), "oracle_diffs": len(oracle_fail), "crashes": len([c for c in crashes if c["id"] is not None]),
         "argument_sizes": {str(k): sizes[k] for k in sorted(sizes)},
         "kmp_mirror_vs_naive_exhaustive": kmp_ex,
+        "c_mirror_disagreements": sum(1 for r in recs if r["model"] and "MIRROR-" in r["model"]),
+        "c_mirrors_run_in_driver": "string.c: find find-all split join slice trim triml trimr repeat reverse ascii-upper ascii-lower "
+                                   "has-prefix? has-suffix? check-set bytes from-bytes (mirror = Spec compared on every generated call; "
+                                   "a disagreement prints MIRROR-MISMATCH / MIRROR-UB and counts as a model difference)",
         "search_family_exhaustive_on_impl": {"pattern_text_pairs": kx_n, "calls": kx_n * 4, "differing_patterns": len(kx_bad)},
         "tested_only": "string/format / buffer/format: the subset %% %d %i %x %X %o %c %s (flags, width, precision) has a Lean definition (Lib/Format.lean) compared with the implementation; %f %e %g are compared with python % formatting only; %v %q %p %j etc. are not exercised. Conformance of every definition to the C code is by correspondence, not proof.",
     }
@@ -395,6 +410,17 @@ def _run(ctx, quick, broken, exe, janet, workdir):
         "printf-style formatting: Lean reference definition for the integer/char/string subset, conformance tested, not proved; float directives python-only",
         "range: exact comparison for integers and dyadic fractions (double arithmetic exact); other floats crash-only",
     ])
+
+
+def changed_sources(ctx, src_mod):
+    """names of the mirrored functions whose normalised text differs from the one recorded in Lib/SrcTie.lean"""
+    import re
+    try:
+        tie = open(os.path.join(VERIF, "lean/JanetModel/Lib/SrcTie.lean")).read()
+        want = dict(re.findall(r'theorem (\S+) : LibSrc\.\S+ = ("(?:[^"\\]|\\.)*") := rfl', tie))
+        return [human for ident, human, text in src_mod.extract(ctx.build.tree) if want.get(ident) != src_mod.lean_str(text)]
+    except Exception as e:   # diagnostics only
+        return ["(could not compare: %s)" % e]
 
 
 def crash_shape(c):
